@@ -364,6 +364,9 @@ class HttpBeaconClient:
                 ``None`` is handler for empty tasks. ``-1`` is a catch-all handler.
             func: The function to call when a task with the given command ID is received.
         """
+        if command_id is not None:
+            # normalize to a plain int (enum members of dissect.cstruct compare equal to ints but hash differently)
+            command_id = int(command_id)
         if command_id not in self.task_map:
             self.task_map[command_id] = []
         self.task_map[command_id].append(func)
@@ -492,6 +495,7 @@ class HttpBeaconClient:
     def get_handlers(self, command_id: Union[int, None]) -> List[Callable]:
         """Get a list of handlers for a given command ID."""
         if command_id is not None:
+            command_id = int(command_id)
             try:
                 command_name = BeaconCommand(command_id).name.replace("COMMAND_", "").lower()
             except ValueError:
